@@ -188,7 +188,19 @@ impl Matcher {
 
     /// Sort transactions by date and merge same-day same-ticker buys/sells.
     fn preprocess(&self, mut transactions: Vec<GbpTransaction>) -> Vec<GbpTransaction> {
-        transactions.sort_by(|a, b| a.date.cmp(&b.date));
+        // Within a day, splits/unsplits follow the day's trades: they take effect after
+        // them (see `process`), and the 30-day look-ahead relies on that list order.
+        let is_share_reorganisation = |tx: &GbpTransaction| {
+            matches!(
+                tx.operation,
+                Operation::Split { .. } | Operation::Unsplit { .. }
+            )
+        };
+        transactions.sort_by(|a, b| {
+            a.date
+                .cmp(&b.date)
+                .then(is_share_reorganisation(a).cmp(&is_share_reorganisation(b)))
+        });
 
         let mut merged = Vec::new();
         if transactions.is_empty() {
